@@ -119,6 +119,45 @@ pub struct FixtureImport {
     pub line: usize,
 }
 
+/// The statements that run at module level: the top-level ones plus the bodies of
+/// module-level `try` / `if` / `with` blocks, where conftest files commonly guard optional
+/// imports (`try: from .extra import * / except ImportError: ...`).
+fn module_level_statements(stmts: &[Stmt]) -> Vec<&Stmt> {
+    fn collect<'a>(stmts: &'a [Stmt], out: &mut Vec<&'a Stmt>) {
+        for stmt in stmts {
+            match stmt {
+                Stmt::Try(t) => {
+                    collect(&t.body, out);
+                    for handler in &t.handlers {
+                        let rustpython_parser::ast::ExceptHandler::ExceptHandler(h) = handler;
+                        collect(&h.body, out);
+                    }
+                    collect(&t.orelse, out);
+                    collect(&t.finalbody, out);
+                }
+                Stmt::TryStar(t) => {
+                    collect(&t.body, out);
+                    for handler in &t.handlers {
+                        let rustpython_parser::ast::ExceptHandler::ExceptHandler(h) = handler;
+                        collect(&h.body, out);
+                    }
+                    collect(&t.orelse, out);
+                    collect(&t.finalbody, out);
+                }
+                Stmt::If(i) => {
+                    collect(&i.body, out);
+                    collect(&i.orelse, out);
+                }
+                Stmt::With(w) => collect(&w.body, out),
+                other => out.push(other),
+            }
+        }
+    }
+    let mut out = Vec::new();
+    collect(stmts, &mut out);
+    out
+}
+
 impl FixtureDatabase {
     /// Extract fixture imports from a module's statements.
     /// Returns a list of imports that could potentially bring in fixtures.
@@ -130,7 +169,7 @@ impl FixtureDatabase {
     ) -> Vec<FixtureImport> {
         let mut imports = Vec::new();
 
-        for stmt in stmts {
+        for stmt in module_level_statements(stmts) {
             if let Stmt::ImportFrom(import_from) = stmt {
                 // Skip imports from standard library or well-known non-fixture modules
                 let mut module = import_from
@@ -206,7 +245,7 @@ impl FixtureDatabase {
     pub(crate) fn extract_pytest_plugins(&self, stmts: &[Stmt]) -> Vec<String> {
         let mut modules = Vec::new();
 
-        for stmt in stmts {
+        for stmt in module_level_statements(stmts) {
             let value = match stmt {
                 Stmt::Assign(assign) => {
                     let is_pytest_plugins = assign.targets.iter().any(|target| {
